@@ -222,7 +222,7 @@ func c15setup(tier string, seed uint64) int {
 		}
 		// Stop while many clients are connecting (free-running: the window between "is the registry stopped?"
 		// and "register" has no schedule point, so it is exercised by repetition)
-		storms := map[string]int{"quick": 24, "thorough": 100}[tier]
+		storms := map[string]int{"quick": 48, "thorough": 200}[tier]
 		for k := 0; k < storms; k++ {
 			c15.gated = append(c15.gated, c15gated{Kind: "stop-under-connect-storm", Listeners: []string{"plain", "both"}[k%2], Rep: rep*1000 + k})
 		}
